@@ -8,6 +8,7 @@ import Petl.HashJoin
 import Petl.SetOps
 import Petl.Dedup
 import PetlProofs.Props.C06
+import Petl.Gen.BareNext
 
 namespace Petl.C20
 open Petl
@@ -133,5 +134,11 @@ theorem reshape_header_only (kidx : List Nat) (vars : List (Nat × Val)) (hdr : 
 example : sortView [[.str [97], .str [97]]] (some [.name [97]]) false (some 1) = .ok [[.str [97], .str [97]]] := by
   apply (sort_header_only _ _ _).1 _ [0]
   simp [asindices, asindicesAux, findName, fldName, Except.map]
+
+/-- tie by translation: in no generator function of petl/transform, the modelled util modules and the text-format
+    readers is a data row fetched with next() outside a try that catches StopIteration (inside a generator the escaping
+    StopIteration would become a RuntimeError on a table without data rows).  The list of such sites is regenerated from
+    the source on every run (translators/bare_next.py) and must be empty. -/
+theorem no_unguarded_data_next : Gen.bareNextSites = [] := by decide
 
 end Petl.C20
